@@ -68,7 +68,7 @@ func pipelineCmd(args []string) error {
 	rng := rand.New(rand.NewSource(*seed))
 	nl, ngrey, nedge, nseed := 5, 32, 16, 250
 	if *tier == "thorough" {
-		nl, ngrey, nedge, nseed = 32, 256, 256, 100000
+		nl, ngrey, nedge, nseed = 17, 256, 256, 12000 // ~307k events: 35 min of TLC at the measured 150 events/s/core
 	}
 	var pix []color.NRGBA
 	lv := func(i, n int) uint8 { return uint8((i*255 + (n-1)/2) / (n - 1)) }
